@@ -79,7 +79,7 @@ def run(W, chk):
     E = W.run_fn("farm_manager::farm::commands::compute_farm_emissions")
     until = vfield(E.ret, "1") if E.ret is not None else EMPTY
     m = {o: ops for (o, ops) in flat_atoms(until)}
-    want = {"farm.preliminary_end_epoch": frozenset(["sub"]), "Const(1_u64)": frozenset(["sub"]), "current_epoch_id": frozenset()}
+    want = {"farm.preliminary_end_epoch": frozenset(["sub", "sub:l"]), "Const(1_u64)": frozenset(["sub", "sub:r"]), "current_epoch_id": frozenset()}
     chk.expect(m == want, "PROV-emission-window", "until", "emissions until min(until, end - 1)", "emission window end <- %s" % {k: sorted(v) for k, v in m.items()}, E.entry)
     gl = [e for e in E.switches() if any(isinstance(a[0], tuple) and a[0][1] == "le" and exact_origins(a[0][2]) == {"farm.preliminary_end_epoch"}
                                          and exact_origins(a[0][3]) == {"current_epoch_id"} for a in e.vals[0].atoms)]
